@@ -464,8 +464,8 @@ def plan(tier):
 
 
 # weight table of the generator: (cumulative upper bound out of 100, fragment name).  Index 0 is the simplest op, so that
-# integer shrinking moves towards plain ticks / delivered green batches.
-_TABLE = [(4, 'tick'), (20, 'green'), (23, 'green_silent'), (31, 'approve'), (36, 'batch_bad'), (43, 'push'), (49, 'target'),
+# integer shrinking (and Hypothesis' bias to small draws) moves towards delivered green batches and plain ticks.
+_TABLE = [(18, 'green'), (22, 'tick'), (24, 'green_silent'), (32, 'approve'), (36, 'batch_bad'), (43, 'push'), (49, 'target'),
           (53, 'label_add'), (57, 'label_del'), (60, 'review_bad'), (65, 'status'), (68, 'open'), (70, 'close'), (71, 'reopen'),
           (75, 'deploy'), (76, 'conflict'), (78, 'freeze'), (79, 'restart'), (80, 'nb'), (81, 'ng'),
           (84, 'F_approve_green'), (88, 'F_silent_perturb_then_green'), (90, 'F_silent_perturb_then_tick'),
@@ -533,13 +533,20 @@ def _strategy(tier='quick'):
     from hypothesis import strategies as st
     frag = st.tuples(st.integers(0, 99), st.integers(0, 5), st.integers(0, 40), st.integers(0, 4), st.integers(0, 3),
                      st.integers(0, 6))
-    ops = st.lists(frag, min_size=3, max_size=16 if tier == 'quick' else 24).map(
-        lambda ts: [o for t in ts for o in decode(t)][:60])
-    prs = st.lists(st.tuples(st.sampled_from([1, 1, 0]), st.sampled_from([-1, -1, -1, -1, 0, 2, 3]),
+    frags = st.lists(frag, min_size=6, max_size=18 if tier == 'quick' else 28)
+    prs = st.lists(st.tuples(st.sampled_from([1, 1, 1, 1, 0]), st.sampled_from([-1, -1, -1, -1, 0, 2, 3]),
                              st.sampled_from([0, 0, 0, 0, 1])).map(list), min_size=1, max_size=3)
-    cfg = st.fixed_dictionaries(dict(deployable=st.sampled_from([0, 0, 0, 1]), ci_required=st.sampled_from([1, 1, 0]),
+    cfg = st.fixed_dictionaries(dict(deployable=st.sampled_from([0, 0, 0, 0, 1]), ci_required=st.sampled_from([1, 1, 0]),
                                      dismiss_stale=st.sampled_from([0, 0, 1]), filler=st.sampled_from([0, 0, 11]), prs=prs))
-    return st.fixed_dictionaries(dict(cfg=cfg, ops=ops))
+
+    def build(d):
+        ops = []
+        for t in d['frags']:
+            if d['cfg']['deployable'] and t[2] % 3 != 2:
+                ops.append(['deploy', 0, 1])        # on a deployable branch merges wait for the running deploy to finish
+            ops.extend(decode(t))
+        return dict(cfg=d['cfg'], ops=ops[:70])
+    return st.fixed_dictionaries(dict(cfg=cfg, frags=frags)).map(build)
 
 
 def _minimise(case, sig, msg, budget=400):
